@@ -24,7 +24,7 @@ CLASSES = ['AddEnclosingMiddleware', 'LatexDecodingMiddleware', 'LatexEncodingMi
            'MonthAbbreviationMiddleware', 'MonthIntMiddleware', 'MonthLongStringMiddleware', 'NormalizeFieldKeys', 'RemoveEnclosingMiddleware',
            'ResolveStringReferencesMiddleware', 'SeparateCoAuthors', 'SortBlocksByTypeAndKeyMiddleware', 'SortFieldsAlphabeticallyMiddleware',
            'SortFieldsCustomMiddleware', 'SplitNameParts']
-MIN = {"write_string_monitor": (3000, 60000), "error_block_libraries": (300, 6000), "whole_stack_monitor": (500, 20000), "repeat_after_tamper": (300, 10000)}
+MIN = {"write_string_monitor": (3000, 60000), "error_block_libraries": (300, 6000), "whole_stack_monitor": (500, 20000), "repeat_after_tamper": (300, 10000), "edited_library": (500, 20000)}
 MIN.update({"transform_copy:" + c: (100, 2000) for c in CLASSES})
 
 OPTS = {
@@ -156,7 +156,12 @@ def cases(tier, seed, shard, nshards):
             text = special_doc(r)
         fmt = None if r.random() < .5 else [r.choice(["", "\t", "  "]), r.choice([0, 10, "auto"]), r.random() < .5, r.choice(["\n\n", "\n"]), None]
         pre = r.choice(["split", "default", "default", "names", "names"])
-        yield {"text": text, "pre": pre, "stack": rand_stack(r, pre), "fmt": fmt}
+        c = {"text": text, "pre": pre, "stack": rand_stack(r, pre), "fmt": fmt}
+        if r.random() < .25:
+            # the parsed library is edited through the public API before it is handed to the stack / the writer
+            new = ["entry", "misc", r.choice(["k0", "k1", "fresh", "yr"]), [["title", "{New}"], ["month", "3"]] + ([] if pre == "names" else [["author", "{Doe, J. and Roe, K.}"]])]   # (a str author in a library of NameParts is a caller's type error)
+            c["hist"] = [r.choice([["remove", r.randrange(8)], ["readd", r.randrange(8)], ["add", new], ["replace", r.randrange(8), new]]) for _ in range(r.choice([1, 2, 3]))]
+        yield c
 
 
 def pre_parse(text, pre):
@@ -183,6 +188,8 @@ def check(case, ctx):
         ctx.note("pre_parse_raised_not_judged_here")
         return []
     out = []
+    if case.get("hist") and build.apply_history(lib, case["hist"]):
+        ctx.mon("edited_library")
     kinds = [sp.block_kind(b) for b in lib.blocks]
     if "mwerror" in kinds:
         ctx.mon("error_block_libraries")
